@@ -171,14 +171,32 @@ func (x *XmlNode) Find(start int, m meta.Definition) int {
 }
 
 func (x *XmlNode) Choose(sel *node.Selection, choice *meta.Choice) (*meta.ChoiceCase, error) {
-	for _, c := range choice.Cases() {
-		for _, m := range c.DataDefinitions() {
-			if x.Find(0, m) >= 0 {
-				return c, nil
-			}
+	for _, caseId := range choice.CaseIdents() {
+		// by iterating thru case ids and not cases we get a predictable order
+		c := choice.Cases()[caseId]
+		if x.caseHasData(c) {
+			return c, nil
 		}
 	}
 	return nil, nil
+}
+
+// a case is in the data if any of its nodes is, including nodes of choices nested in the case
+func (x *XmlNode) caseHasData(c *meta.ChoiceCase) bool {
+	for _, m := range c.DataDefinitions() {
+		if nested, isChoice := m.(*meta.Choice); isChoice {
+			for _, caseId := range nested.CaseIdents() {
+				if x.caseHasData(nested.Cases()[caseId]) {
+					return true
+				}
+			}
+			continue
+		}
+		if x.Find(0, m) >= 0 {
+			return true
+		}
+	}
+	return false
 }
 
 // Stubs non-reader funcs
